@@ -175,6 +175,13 @@ theorem tokenize_pad {lead trail : List Char} {toks : List Tok} (gaps : List Nat
   unfold tokenize
   rw [trim_pad gaps h]
   exact words_padBody toks gaps h.tok_ne h.tok_nosp
+#print axioms tokenize_pad
+example : PadOk "\t ".toList " \r\n".toList ["go".toList, "wtime".toList, "5".toList] :=
+  ⟨by decide, by decide, by decide, by decide,
+   by intro t c h1 h2; simp at h1; subst h1; simp at h2; subst h2; decide,
+   by intro t c h1 h2; simp at h1; subst h1; simp at h2; subst h2; decide⟩
+example : "\t go   wtime 5 \r\n".toList
+    = pad "\t ".toList " \r\n".toList [2, 0] ["go".toList, "wtime".toList, "5".toList] := by decide
 
 
 theorem square_roundtrip :
@@ -195,6 +202,8 @@ theorem ucimove_roundtrip (m : UciMove) (h : MoveWf m) : UciMove.parse (UciMove.
   | some pc =>
     simp [UciMove.render, squareFen, UciMove.parse, square_roundtrip s hs, square_roundtrip t ht,
       piece_roundtrip pc]
+#print axioms ucimove_roundtrip
+example : MoveWf ⟨52, 36, some .queen⟩ ∧ UciMove.render ⟨52, 36, some .queen⟩ = "e2e4q".toList := by decide
 
 /-- the second char of a rendered move is a digit, so no rendered move is a keyword -/
 theorem render_second_digit (m : UciMove) (h : MoveWf m) :
@@ -359,6 +368,7 @@ theorem parse_render_simple :
     parseTokens (render .registerLater) = .ok .registerLater := by
   refine ⟨rfl, rfl, rfl, rfl, rfl, rfl, ?_, rfl⟩
   intro b; cases b <;> rfl
+#print axioms parse_render_simple
 
 /-- trailing tokens after a parameterless command are ignored -/
 theorem simple_ignores_rest (extra : List Tok) :
@@ -388,6 +398,9 @@ theorem parse_render_setoption (name : List Char) (h : TextOk (some "value".toLi
   simp only [List.append_nil] at hu
   show parseSetOption ("name".toList :: words name) = _
   simp only [parseSetOption, consume_same, hu, consume_nil, untilOneOfOrEnd_nil]
+#print axioms parse_render_setoption
+example : TextOk (some "value".toList) "Clear Hash".toList :=
+  ⟨by decide, by decide, by intro w hw; cases hw; decide⟩
 
 theorem parse_render_setoptionvalue (name value : List Char) (h : TextOk (some "value".toList) name)
     (hv : TextOk none value) :
@@ -398,6 +411,9 @@ theorem parse_render_setoptionvalue (name value : List Char) (h : TextOk (some "
   simp only [List.append_nil] at hv'
   show parseSetOption ("name".toList :: (words name ++ "value".toList :: words value)) = _
   simp only [parseSetOption, consume_same, hu, hv']
+#print axioms parse_render_setoptionvalue
+example : TextOk (some "value".toList) "value of x".toList ∧ TextOk none "a value 3".toList :=
+  ⟨⟨by decide, by decide, by intro w hw; cases hw; decide⟩, ⟨by decide, by decide, by intro w hw; cases hw⟩⟩
 
 theorem parse_render_register (name code : List Char) (h : TextOk (some "code".toList) name)
     (hc : TextOk none code) :
@@ -409,6 +425,9 @@ theorem parse_render_register (name code : List Char) (h : TextOk (some "code".t
   have hn : ¬ ("name".toList = "later".toList) := by decide
   show parseRegister ("name".toList :: (words name ++ "code".toList :: words code)) = _
   simp only [parseRegister, hn, if_false, consume_same, hu, hc']
+#print axioms parse_render_register
+example : TextOk (some "code".toList) "Stefan MK".toList ∧ TextOk none "43598 74324".toList :=
+  ⟨⟨by decide, by decide, by intro w hw; cases hw; decide⟩, ⟨by decide, by decide, by intro w hw; cases hw⟩⟩
 
 
 /-! ### move lists -/
@@ -905,6 +924,25 @@ theorem parse_render_go (items : List GoItem) (hok : GoItemsOk items) :
   unfold parseGo
   rw [h, goLoop_nil, applyItems_eq_goFrom items hok.distinct]
   rfl
+#print axioms parse_render_go
+example : GoItemsOk [.movetime (-5), .searchmoves [⟨52, 36, none⟩, ⟨12, 28, none⟩], .depth 3, .ponder, .wtime 60000] :=
+  ⟨by decide, by decide⟩
+/-- the value spelled by that list: fields by keyword, negative `movetime` clamped to 0 -/
+example : goOfItems [.movetime (-5), .searchmoves [⟨52, 36, none⟩, ⟨12, 28, none⟩], .depth 3, .ponder, .wtime 60000]
+    = { searchMoves := [⟨52, 36, none⟩, ⟨12, 28, none⟩], ponder := true, wtime := some 60000, depth := some 3,
+        moveTime := some 0 } := by decide
+
+/-- durations ≥ 0 round-trip as milliseconds, negative durations are clamped to 0 (`max(d, 0) as u64`) -/
+theorem go_duration_clamp (v : Int) (h : I64Range v) :
+    parseTokens ("go".toList :: renderGoItems [.wtime v])
+      = .ok (.go { Go.empty with wtime := some (if v < 0 then 0 else v.toNat) }) := by
+  rw [parse_render_go [.wtime v] ⟨by simp, by intro it hit; simp at hit; subst hit; exact h⟩]
+  simp only [goOfItems, goFrom, List.findSome?_cons, List.findSome?_nil, GoItem.sm?, GoItem.ponder?, GoItem.wtime?,
+    GoItem.btime?, GoItem.winc?, GoItem.binc?, GoItem.movestogo?, GoItem.depth?, GoItem.nodes?, GoItem.mate?,
+    GoItem.movetime?, GoItem.infinite?, Go.empty]
+  have : v.toNat = if v < 0 then 0 else v.toNat := by split <;> omega
+  rw [← this]; rfl
+#print axioms go_duration_clamp
 
 theorem visAfter_contains (items : List GoItem) (k : GoKey) :
     (visAfter [] items).contains k.word = true ↔ k ∈ items.map GoItem.key := by
@@ -935,6 +973,8 @@ theorem unknown_first_word (t : Tok) (q : List Tok) (h : t ∉ rootWords) :
   simp only [rootWords, List.mem_cons, List.not_mem_nil, or_false, not_or] at h
   obtain ⟨h1, h2, h3, h4, h5, h6, h7, h8, h9, h10, h11⟩ := h
   simp only [parseTokens, parseRoot, h1, h2, h3, h4, h5, h6, h7, h8, h9, h10, h11, if_false]
+#print axioms unknown_first_word
+example : "UCI".toList ∉ rootWords ∧ "go\twtime".toList ∉ rootWords := by decide
 
 /-- **C15, duplicated go parameter.** After any well-formed parameter prefix, a keyword that already occurred in
 the prefix is a `dup` error, whatever follows. -/
@@ -943,6 +983,9 @@ theorem go_duplicate (items : List GoItem) (hok : GoItemsOk items) (k : GoKey)
     parseTokens ("go".toList :: (renderGoItems items ++ k.word :: rest)) = .error .dup := by
   rw [parseGo_prefix items hok k rest, goLoop_cons, (visAfter_contains items k).mpr hk]
   rfl
+#print axioms go_duplicate
+example : GoItemsOk [.wtime 1, .ponder] ∧ GoKey.wtime ∈ [GoItem.wtime 1, .ponder].map GoItem.key :=
+  ⟨⟨by decide, by decide⟩, by decide⟩
 
 theorem goStep_badNumber (g : Go) (k : GoKey) (v : Tok) (rest : List Tok) (h : BadNumber k v) :
     goStep g k (v :: rest) = .error .int := by
@@ -961,6 +1004,10 @@ theorem bad_int (items : List GoItem) (hok : GoItemsOk items) (k : GoKey)
     | true => exact absurd ((visAfter_contains items k).mp h) hk
   rw [parseGo_prefix items hok k, goLoop_cons, hc, goKey?_word]
   simp only [Bool.false_eq_true, if_false, goStep_badNumber _ k v rest hv]
+#print axioms bad_int
+example : BadNumber .depth "-1".toList ∧ BadNumber .wtime "9223372036854775808".toList ∧
+    BadNumber .nodes "18446744073709551616".toList ∧ BadNumber .movetime "1e3".toList :=
+  ⟨Or.inr ⟨rfl, by decide⟩, Or.inl ⟨rfl, by decide⟩, Or.inr ⟨rfl, by decide⟩, Or.inl ⟨rfl, by decide⟩⟩
 
 theorem goStep_missing (g : Go) (k : GoKey) (h : argKind k = .duration ∨ argKind k = .count) :
     goStep g k [] = .error .eoc := by
@@ -976,6 +1023,7 @@ theorem go_missing_value (items : List GoItem) (hok : GoItemsOk items) (k : GoKe
     | true => exact absurd ((visAfter_contains items k).mp h) hk
   rw [parseGo_prefix items hok k, goLoop_cons, hc, goKey?_word]
   simp only [Bool.false_eq_true, if_false, goStep_missing _ k hkind]
+#print axioms go_missing_value
 
 /-- a first parameter that is no go keyword is a `token` error -/
 theorem go_unknown_param (t : Tok) (rest : List Tok) (ht : goKey? t = none) :
@@ -999,6 +1047,7 @@ theorem bad_move_go (items : List GoItem) (hok : GoItemsOk items) (hk : GoKey.se
   have := parseMovesUntil_bad goTokens ms bad rest
     (fun m hm => ⟨hms m hm, render_not_goToken m (hms m hm)⟩) hkw hbad
   simp only [Bool.false_eq_true, if_false, goStep, this]
+#print axioms bad_move_go
 
 /-- bad move in `position … moves` -/
 theorem bad_move_position (src : PosSource) (hsrc : src.Wf)
@@ -1034,6 +1083,14 @@ theorem bad_fen (t : Tok) (ts rest : List Tok) (hts : ∀ x ∈ ts, x ≠ "moves
   have hu := untilOneOfOrEnd_words ["moves".toList] t ts rest
     (fun x hx => by simpa using hts x hx) hst
   simp only [parsePosition, if_true, hu, fenOfText_err _ hbad]
+#print axioms bad_fen
+example : ∀ f, Inkayaku.FenSyntax.parse
+    (String.ofList (joinSp ["8/8/8/8/8/8/8/44".toList, "w".toList, "-".toList, "-".toList])) ≠ .ok f := by
+  intro f
+  have h : Inkayaku.FenSyntax.parseChars (joinSp ["8/8/8/8/8/8/8/44".toList, "w".toList, "-".toList, "-".toList])
+      = .error .concurrent := rfl
+  rw [parse_ofList, if_neg (by decide), h]
+  intro e; cases e
 
 /-- **C15, missing parameters** are `eoc` errors (go keywords without value: `go_missing_value`). -/
 theorem missing_param :
@@ -1067,6 +1124,7 @@ theorem missing_param :
     have hn : ¬ ("name".toList = "later".toList) := by decide
     rw [parseRoot_register]
     simp only [parseRegister, hn, if_false, consume_same, hu, untilOneOfOrEnd_nil]
+#print axioms missing_param
 
 /-- wrong keyword where a fixed one is required: `token` errors, never another command -/
 theorem wrong_keyword :
@@ -1093,6 +1151,7 @@ theorem wrong_keyword :
     rw [parseRoot_position]
     have h0 : ¬ ("startpos".toList = "fen".toList) := by decide
     simp only [parsePosition, h0, if_false, if_true, consume, h1]
+#print axioms wrong_keyword
 
 /-! ### whole lines -/
 
@@ -1104,6 +1163,504 @@ theorem parseLine_pad (s : String) {lead trail : List Char} {toks : List Tok} (g
     (h : PadOk lead trail toks) (hs : s.toList = pad lead trail gaps toks) :
     parseLine s = parseTokens toks := by
   unfold parseLine; rw [hs, parseChars_pad gaps h]
+#print axioms parseLine_pad
 
+
+/-! ### position, final form -/
+
+/-- **C15, position.** `position startpos|fen <any text Fen::from_str accepts> [moves m1 m2 …]` is parsed into
+exactly that FEN and move list (with or without the keyword `moves` when the list is empty). -/
+theorem parse_render_position (src : PosSource) (kw : Bool) (ms : List UciMove)
+    (hsrc : src.Wf) (hms : ∀ m ∈ ms, MoveWf m) :
+    parseTokens ("position".toList :: (src.render ++ renderMoves kw ms))
+      = .ok (.positionFrom src.fenString ms) :=
+  parse_render_position_of_textOk src kw ms hsrc
+    (fun text e => by subst e; exact (fen_fields text hsrc).1) hms
+#print axioms parse_render_position
+example : (PosSource.fen "8/8/8/8/8/8/8/8 w - -".toList).Wf ∧ MoveWf ⟨52, 36, none⟩ := by
+  refine ⟨?_, by decide⟩
+  show ∃ f, Inkayaku.FenSyntax.parse (String.ofList "8/8/8/8/8/8/8/8 w - -".toList) = .ok f
+  rw [parse_ofList]; exact ⟨_, rfl⟩
+
+/-- **C15, bad move.** -/
+theorem bad_move (src : PosSource) (hsrc : src.Wf) (ms : List UciMove) (hms : ∀ m ∈ ms, MoveWf m)
+    (bad : Tok) (rest : List Tok) (hbad : ∀ m, UciMove.parse bad ≠ .ok m) :
+    parseTokens ("position".toList :: (src.render ++ "moves".toList :: (ms.map UciMove.render ++ bad :: rest)))
+      = .error .move :=
+  bad_move_position src hsrc (fun text e => by subst e; exact (fen_fields text hsrc).1) ms hms bad rest hbad
+#print axioms bad_move
+example : ∀ m, UciMove.parse "a1a9".toList ≠ .ok m := by
+  have h : UciMove.parse "a1a9".toList = .error () := rfl
+  intro m; rw [h]; intro e; cases e
+
+/-! ### whole commands -/
+
+def allKeys : List GoKey :=
+  [.searchmoves] ++ [.ponder] ++ [.wtime] ++ [.btime] ++ [.winc] ++ [.binc] ++ [.movestogo] ++ [.depth] ++
+  [.nodes] ++ [.mate] ++ [.movetime] ++ [.infinite]
+
+theorem optItem_keys (mk : Nat → GoItem) (k : GoKey) (hk : ∀ n, (mk n).key = k) (o : Option Nat) :
+    ((optItem mk o).map GoItem.key).Sublist [k] := by
+  cases o <;> simp [optItem, hk]
+
+theorem goItemsOf_keys (g : Go) : ((goItemsOf g).map GoItem.key).Sublist allKeys := by
+  unfold goItemsOf allKeys
+  simp only [List.map_append]
+  repeat' apply List.Sublist.append
+  · split <;> simp [GoItem.key]
+  · split <;> simp [GoItem.key]
+  · apply optItem_keys; intro _; rfl
+  · apply optItem_keys; intro _; rfl
+  · apply optItem_keys; intro _; rfl
+  · apply optItem_keys; intro _; rfl
+  · apply optItem_keys; intro _; rfl
+  · apply optItem_keys; intro _; rfl
+  · apply optItem_keys; intro _; rfl
+  · apply optItem_keys; intro _; rfl
+  · apply optItem_keys; intro _; rfl
+  · split <;> simp [GoItem.key]
+
+theorem mem_optItem {mk : Nat → GoItem} {o : Option Nat} {it : GoItem} (h : it ∈ optItem mk o) :
+    ∃ n, o = some n ∧ it = mk n := by
+  cases o with
+  | none => simp [optItem] at h
+  | some n => exact ⟨n, rfl, by simpa [optItem] using h⟩
+
+theorem goItemsOf_ok (g : Go) (h : Wf (.go g)) : GoItemsOk (goItemsOf g) := by
+  obtain ⟨hsm, hdur, hcnt⟩ := h
+  refine ⟨(goItemsOf_keys g).nodup (by decide), ?_⟩
+  intro it hit
+  simp only [goItemsOf, List.mem_append] at hit
+  have hd : ∀ n : Nat, n < 9223372036854775808 → I64Range (n : Int) := by
+    intro n hn; unfold I64Range; omega
+  rcases hit with (((((((((((h|h)|h)|h)|h)|h)|h)|h)|h)|h)|h)|h)
+  · split at h
+    · simp at h
+    · simp at h; subst h; exact hsm
+  · split at h
+    · simp at h; subst h; trivial
+    · simp at h
+  · obtain ⟨n, ho, rfl⟩ := mem_optItem h; exact hd n (hdur n (by simp [ho]))
+  · obtain ⟨n, ho, rfl⟩ := mem_optItem h; exact hd n (hdur n (by simp [ho]))
+  · obtain ⟨n, ho, rfl⟩ := mem_optItem h; exact hd n (hdur n (by simp [ho]))
+  · obtain ⟨n, ho, rfl⟩ := mem_optItem h; exact hd n (hdur n (by simp [ho]))
+  · obtain ⟨n, ho, rfl⟩ := mem_optItem h; exact hcnt n (by simp [ho])
+  · obtain ⟨n, ho, rfl⟩ := mem_optItem h; exact hcnt n (by simp [ho])
+  · obtain ⟨n, ho, rfl⟩ := mem_optItem h; exact hcnt n (by simp [ho])
+  · obtain ⟨n, ho, rfl⟩ := mem_optItem h; exact hcnt n (by simp [ho])
+  · obtain ⟨n, ho, rfl⟩ := mem_optItem h; exact hd n (hdur n (by simp [ho]))
+  · split at h
+    · simp at h; subst h; trivial
+    · simp at h
+
+theorem findSome?_ite_singleton {β : Type} (f : GoItem → Option β) (c : Prop) [Decidable c] (x : GoItem) :
+    List.findSome? f (if c then [x] else []) = if c then f x else none := by
+  split <;> simp
+
+theorem findSome?_ite_singleton' {β : Type} (f : GoItem → Option β) (c : Prop) [Decidable c] (x : GoItem) :
+    List.findSome? f (if c then [] else [x]) = if c then none else f x := by
+  split <;> simp
+
+theorem findSome?_optItem {β : Type} (f : GoItem → Option β) (mk : Nat → GoItem) (o : Option Nat) :
+    List.findSome? f (optItem mk o) = o.bind (fun n => f (mk n)) := by
+  cases o <;> simp [optItem]
+
+theorem goOfItems_goItemsOf (g : Go) : goOfItems (goItemsOf g) = g := by
+  obtain ⟨sm, po, wt, bt, wi, bi, mtg, d, nd, mt, mvt, inf⟩ := g
+  simp only [goOfItems, goFrom, goItemsOf, List.findSome?_append, findSome?_ite_singleton,
+    findSome?_ite_singleton', findSome?_optItem, GoItem.sm?, GoItem.ponder?, GoItem.wtime?, GoItem.btime?,
+    GoItem.winc?, GoItem.binc?, GoItem.movestogo?, GoItem.depth?, GoItem.nodes?, GoItem.mate?, GoItem.movetime?,
+    GoItem.infinite?, Go.empty]
+  simp only [Go.mk.injEq]
+  refine ⟨?_, ?_, ?_, ?_, ?_, ?_, ?_, ?_, ?_, ?_, ?_, ?_⟩
+  · by_cases h : sm = [] <;> simp [h]
+  · cases po <;> simp
+  · cases wt <;> simp [clampMillis]
+  · cases bt <;> simp [clampMillis]
+  · cases wi <;> simp [clampMillis]
+  · cases bi <;> simp [clampMillis]
+  · cases mtg <;> simp
+  · cases d <;> simp
+  · cases nd <;> simp
+  · cases mt <;> simp
+  · cases mvt <;> simp [clampMillis]
+  · cases inf <;> simp
+
+/-- **C15, headline.** Every well-formed command value is recovered from its canonical token list. -/
+theorem parse_render (c : UciCommand) (h : Wf c) : parseTokens (render c) = .ok c := by
+  cases c with
+  | uci => rfl
+  | isReady => rfl
+  | uciNewGame => rfl
+  | stop => rfl
+  | ponderHit => rfl
+  | quit => rfl
+  | registerLater => rfl
+  | setDebug b => cases b <;> rfl
+  | setOption name => exact parse_render_setoption name h
+  | setOptionValue name value => exact parse_render_setoptionvalue name value h.1 h.2
+  | register name code => exact parse_render_register name code h.1 h.2
+  | go g =>
+    have := parse_render_go (goItemsOf g) (goItemsOf_ok g h)
+    rw [goOfItems_goItemsOf] at this
+    exact this
+  | positionFrom fen ms =>
+    obtain ⟨hf, hne, hms⟩ := h
+    simp only [render]
+    by_cases hs : fen = startposString.toList
+    · rw [if_pos hs]
+      have := parse_render_position .startpos false ms trivial hms
+      rw [hs]; exact this
+    · rw [if_neg hs]
+      have := parse_render_position (.fen fen) false ms hf hms
+      have e : (PosSource.fen fen).fenString = fen := by simp only [PosSource.fenString, if_neg hne]
+      rw [e] at this; exact this
+#print axioms parse_render
+
+/-! ### rendered commands can be padded -/
+
+/-- non-empty and free of trimmed characters (in particular of U+0020) -/
+def Solid (t : Tok) : Prop := t ≠ [] ∧ ∀ c ∈ t, isWhiteSpace c = false
+
+instance (t : Tok) : Decidable (Solid t) := by unfold Solid; infer_instance
+
+theorem getLast?_append_ne {α : Type} (a b : List α) (hb : b ≠ []) : (a ++ b).getLast? = b.getLast? := by
+  rw [List.getLast?_append, List.getLast?_eq_some_getLast hb]; rfl
+
+theorem Solid.nosp {t : Tok} (h : Solid t) : ' ' ∉ t := by
+  intro hm
+  have := h.2 ' ' hm
+  revert this; decide
+
+theorem Solid.last {t : Tok} (h : Solid t) : LastNotTrimmed t :=
+  fun c hc => h.2 c (List.mem_of_getLast? hc)
+
+theorem lastCharOk_of_last_solid {fs : List Tok} (h : ∀ t, fs.getLast? = some t → Solid t) : LastCharOk fs :=
+  fun t c ht hc => (h t ht).last c hc
+
+theorem lastCharOk_append {a b : List Tok} (hb : b ≠ []) (h : LastCharOk b) : LastCharOk (a ++ b) := by
+  intro t c ht hc
+  rw [getLast?_append_ne _ _ hb] at ht
+  exact h t c ht hc
+
+theorem lastCharOk_cons {a : Tok} {b : List Tok} (hb : b ≠ []) (h : LastCharOk b) : LastCharOk (a :: b) :=
+  lastCharOk_append (a := [a]) hb h
+
+theorem splitOnChar_mem_nosep (sep : Char) (s : List Char) : ∀ t ∈ splitOnChar sep s, sep ∉ t := by
+  induction s with
+  | nil => intro t ht; simp [splitOnChar] at ht; subst ht; simp
+  | cons c cs ih =>
+    by_cases hc : c = sep
+    · subst hc
+      intro t ht
+      simp [splitOnChar] at ht
+      rcases ht with rfl | ht
+      · simp
+      · exact ih t ht
+    · rw [splitOnChar_cons_ne hc]
+      have hne := splitOnChar_ne_nil sep cs
+      cases hs : splitOnChar sep cs with
+      | nil => exact absurd hs hne
+      | cons p ps =>
+        rw [hs] at ih
+        intro t ht
+        simp at ht
+        rcases ht with rfl | ht
+        · have := ih p (by simp)
+          intro hm
+          simp at hm
+          rcases hm with rfl | hm
+          · exact hc rfl
+          · exact this hm
+        · exact ih t (by simp [ht])
+
+theorem words_fine (s : List Char) : ∀ t ∈ words s, t ≠ [] ∧ ' ' ∉ t := by
+  intro t ht
+  simp only [words, List.mem_filter] at ht
+  exact ⟨by intro e; subst e; simp at ht, splitOnChar_mem_nosep ' ' s t ht.1⟩
+
+theorem joinSp_getLast (ws : List Tok) (hne : ∀ t ∈ ws, t ≠ []) {t : Tok} (ht : ws.getLast? = some t) :
+    (joinSp ws).getLast? = t.getLast? := by
+  induction ws with
+  | nil => simp at ht
+  | cons a ws ih =>
+    cases ws with
+    | nil => simp at ht; subst ht; simp [joinSp]
+    | cons b ws =>
+      have ht' : (b :: ws).getLast? = some t := by simpa [List.getLast?_cons_cons] using ht
+      have hi := ih (fun x hx => hne x (by simp [hx])) ht'
+      have hne' : joinSp (b :: ws) ≠ [] := by
+        have hb : b ≠ [] := hne b (by simp)
+        cases b with
+        | nil => exact absurd rfl hb
+        | cons c b' => rw [joinSp_cons_cons]; simp
+      have : joinSp (a :: b :: ws) = (a ++ [' ']) ++ joinSp (b :: ws) := by simp [joinSp]
+      rw [this, getLast?_append_ne _ _ hne', hi]
+
+theorem text_lastCharOk {stop : Option Tok} {s : List Char} (h : TextOk stop s) (hl : LastNotTrimmed s) :
+    LastCharOk (words s) := by
+  intro t c ht hc
+  have := joinSp_getLast (words s) (fun x hx => (words_fine s x hx).1) ht
+  rw [h.normal, hc] at this
+  exact hl c this
+
+theorem solid_decimal (n : Nat) : Solid (decimal n) := by
+  have := decimal_props n
+  refine ⟨this.1, fun c hc => isAsciiDigit_not_ws c ((List.all_eq_true.mp this.2.1) c hc)⟩
+
+theorem solid_intText (v : Int) : Solid (intText v) := by
+  unfold intText
+  split
+  · refine ⟨by simp, ?_⟩
+    intro c hc
+    simp at hc
+    rcases hc with rfl | hc
+    · decide
+    · exact (solid_decimal _).2 c hc
+  · exact solid_decimal _
+
+theorem squareFen_solid : ∀ i, i < 64 → ∀ c ∈ squareFen i, isWhiteSpace c = false := by decide
+
+theorem solid_move (m : UciMove) (h : MoveWf m) : Solid (UciMove.render m) := by
+  refine ⟨by simp [UciMove.render, squareFen], ?_⟩
+  intro c hc
+  simp only [UciMove.render, List.mem_append] at hc
+  rcases hc with (hc | hc) | hc
+  · exact squareFen_solid _ h.1 c hc
+  · exact squareFen_solid _ h.2 c hc
+  · cases hp : m.promotion with
+    | none => rw [hp] at hc; simp at hc
+    | some p =>
+      rw [hp] at hc
+      simp at hc; subst hc
+      cases p <;> decide
+
+theorem solid_word (k : GoKey) : Solid k.word := by
+  cases k <;> exact ⟨by decide, by decide⟩
+
+theorem solid_goItem (it : GoItem) (h : it.Wf) : ∀ t ∈ it.render, Solid t := by
+  intro t ht
+  simp only [GoItem.render, List.mem_cons] at ht
+  rcases ht with rfl | ht
+  · exact solid_word _
+  · cases it with
+    | searchmoves ms =>
+      simp only [GoItem.args, List.mem_map] at ht
+      obtain ⟨m, hm, rfl⟩ := ht
+      exact solid_move m (h m hm)
+    | ponder => simp [GoItem.args] at ht
+    | infinite => simp [GoItem.args] at ht
+    | wtime v => simp [GoItem.args] at ht; subst ht; exact solid_intText v
+    | btime v => simp [GoItem.args] at ht; subst ht; exact solid_intText v
+    | winc v => simp [GoItem.args] at ht; subst ht; exact solid_intText v
+    | binc v => simp [GoItem.args] at ht; subst ht; exact solid_intText v
+    | movetime v => simp [GoItem.args] at ht; subst ht; exact solid_intText v
+    | movestogo n => simp [GoItem.args] at ht; subst ht; exact solid_decimal n
+    | depth n => simp [GoItem.args] at ht; subst ht; exact solid_decimal n
+    | nodes n => simp [GoItem.args] at ht; subst ht; exact solid_decimal n
+    | mate n => simp [GoItem.args] at ht; subst ht; exact solid_decimal n
+
+theorem solid_goItems (items : List GoItem) (h : ∀ it ∈ items, it.Wf) : ∀ t ∈ renderGoItems items, Solid t := by
+  intro t ht
+  simp only [renderGoItems, List.mem_flatMap] at ht
+  obtain ⟨it, hit, ht⟩ := ht
+  exact solid_goItem it (h it hit) t ht
+
+theorem solid_moves (kw : Bool) (ms : List UciMove) (h : ∀ m ∈ ms, MoveWf m) :
+    ∀ t ∈ renderMoves kw ms, Solid t := by
+  intro t ht
+  unfold renderMoves at ht
+  split at ht
+  · simp at ht
+  · simp only [List.mem_cons, List.mem_map] at ht
+    rcases ht with rfl | ⟨m, hm, rfl⟩
+    · exact ⟨by decide, by decide⟩
+    · exact solid_move m (h m hm)
+
+/-- the tokens of a rendered command are non-empty and space-free, and the last one does not end in a trimmed char -/
+theorem render_tokens (c : UciCommand) (hwf : Wf c) (hend : EndsClean c) :
+    (∀ t ∈ render c, t ≠ [] ∧ ' ' ∉ t) ∧ LastCharOk (render c) := by
+  have kw : ∀ t : Tok, Solid t → t ≠ [] ∧ ' ' ∉ t := fun t h => ⟨h.1, h.nosp⟩
+  have allSolid : ∀ l : List Tok, (∀ t ∈ l, Solid t) → (∀ t ∈ l, t ≠ [] ∧ ' ' ∉ t) ∧ LastCharOk l :=
+    fun l h => ⟨fun t ht => kw t (h t ht), lastCharOk_of_last_solid (fun t ht => h t (List.mem_of_getLast? ht))⟩
+  cases c with
+  | uci => exact allSolid _ (by decide)
+  | isReady => exact allSolid _ (by decide)
+  | uciNewGame => exact allSolid _ (by decide)
+  | stop => exact allSolid _ (by decide)
+  | ponderHit => exact allSolid _ (by decide)
+  | quit => exact allSolid _ (by decide)
+  | registerLater => exact allSolid _ (by decide)
+  | setDebug b => cases b <;> exact allSolid _ (by decide)
+  | setOption name =>
+    have hw : words name ≠ [] := hwf.nonempty
+    refine ⟨?_, lastCharOk_cons (by simp) (lastCharOk_cons hw (text_lastCharOk hwf hend))⟩
+    intro t ht
+    simp only [render, List.mem_cons] at ht
+    rcases ht with rfl | rfl | ht
+    · exact kw _ ⟨by decide, by decide⟩
+    · exact kw _ ⟨by decide, by decide⟩
+    · exact words_fine name t ht
+  | setOptionValue name value =>
+    have hw : words value ≠ [] := hwf.2.nonempty
+    refine ⟨?_, ?_⟩
+    · intro t ht
+      simp only [render, List.mem_cons, List.mem_append] at ht
+      rcases ht with (rfl | rfl | ht) | rfl | ht
+      · exact kw _ ⟨by decide, by decide⟩
+      · exact kw _ ⟨by decide, by decide⟩
+      · exact words_fine name t ht
+      · exact kw _ ⟨by decide, by decide⟩
+      · exact words_fine value t ht
+    · have : render (.setOptionValue name value)
+          = ("setoption".toList :: "name".toList :: words name ++ ["value".toList]) ++ words value := by
+        simp [render]
+      rw [this]
+      exact lastCharOk_append hw (text_lastCharOk hwf.2 hend)
+  | register name code =>
+    have hw : words code ≠ [] := hwf.2.nonempty
+    refine ⟨?_, ?_⟩
+    · intro t ht
+      simp only [render, List.mem_cons, List.mem_append] at ht
+      rcases ht with (rfl | rfl | ht) | rfl | ht
+      · exact kw _ ⟨by decide, by decide⟩
+      · exact kw _ ⟨by decide, by decide⟩
+      · exact words_fine name t ht
+      · exact kw _ ⟨by decide, by decide⟩
+      · exact words_fine code t ht
+    · have : render (.register name code)
+          = ("register".toList :: "name".toList :: words name ++ ["code".toList]) ++ words code := by
+        simp [render]
+      rw [this]
+      exact lastCharOk_append hw (text_lastCharOk hwf.2 hend)
+  | go g =>
+    have hok := goItemsOf_ok g hwf
+    apply allSolid
+    intro t ht
+    simp only [render, List.mem_cons] at ht
+    rcases ht with rfl | ht
+    · exact ⟨by decide, by decide⟩
+    · exact solid_goItems _ hok.wf t ht
+  | positionFrom fen ms =>
+    obtain ⟨hf, hne, hms⟩ := hwf
+    have hff := fen_fields fen hf
+    have hmv := solid_moves false ms hms
+    simp only [render]
+    by_cases hs : fen = startposString.toList
+    · rw [if_pos hs]
+      apply allSolid
+      intro t ht
+      simp only [PosSource.render, List.mem_cons, List.mem_append, List.not_mem_nil, or_false] at ht
+      rcases ht with (rfl | rfl) | ht
+      · exact ⟨by decide, by decide⟩
+      · exact ⟨by decide, by decide⟩
+      · exact hmv t ht
+    · rw [if_neg hs]
+      refine ⟨?_, ?_⟩
+      · intro t ht
+        simp only [PosSource.render, List.mem_cons, List.mem_append] at ht
+        rcases ht with (rfl | rfl | ht) | ht
+        · exact kw _ ⟨by decide, by decide⟩
+        · exact kw _ ⟨by decide, by decide⟩
+        · exact words_fine fen t ht
+        · exact kw t (hmv t ht)
+      · by_cases hm : renderMoves false ms = []
+        · rw [hm, List.append_nil]
+          exact lastCharOk_cons (by simp [PosSource.render]) (lastCharOk_cons hff.1.nonempty hff.2)
+        · exact lastCharOk_append hm
+            (lastCharOk_of_last_solid (fun t ht => hmv t (List.mem_of_getLast? ht)))
+
+theorem render_head (c : UciCommand) : ∃ k r, render c = k :: r ∧ k ∈ rootWords := by
+  cases c <;> exact ⟨_, _, rfl, by decide⟩
+
+theorem rootWords_head : ∀ k ∈ rootWords, ∀ c, k.head? = some c → isWhiteSpace c = false := by
+  decide
+
+/-- every well-formed command can be padded: `PadOk` holds for its canonical token list -/
+theorem render_padOk (c : UciCommand) (hwf : Wf c) (hend : EndsClean c) (lead trail : List Char)
+    (hlead : ∀ ch ∈ lead, isWhiteSpace ch = true) (htrail : ∀ ch ∈ trail, isWhiteSpace ch = true) :
+    PadOk lead trail (render c) := by
+  have ht := render_tokens c hwf hend
+  obtain ⟨k, r, e, hk⟩ := render_head c
+  refine ⟨hlead, htrail, fun t h => (ht.1 t h).1, fun t h => (ht.1 t h).2, ?_, ht.2⟩
+  intro t ch h1 h2
+  rw [e] at h1; simp at h1; subst h1
+  exact rootWords_head _ hk ch h2
+
+/-- **C15, whole lines.** Every well-formed command, written with its canonical tokens, any number (≥ 1) of spaces
+between them and any trimmed characters around them, is parsed into exactly that command. -/
+theorem parse_line (c : UciCommand) (hwf : Wf c) (hend : EndsClean c) (lead trail : List Char) (gaps : List Nat)
+    (hlead : ∀ ch ∈ lead, isWhiteSpace ch = true) (htrail : ∀ ch ∈ trail, isWhiteSpace ch = true) :
+    parseChars (pad lead trail gaps (render c)) = .ok c := by
+  rw [parseChars_pad gaps (render_padOk c hwf hend lead trail hlead htrail), parse_render c hwf]
+#print axioms parse_line
+example : Wf (.go { wtime := some 5, infinite := true }) ∧ EndsClean (.go { wtime := some 5, infinite := true }) := by
+  refine ⟨⟨by simp, ?_, ?_⟩, trivial⟩ <;> simp
+example : Wf (.setOptionValue "Clear Hash".toList "a b".toList) ∧
+    EndsClean (.setOptionValue "Clear Hash".toList "a b".toList) :=
+  ⟨⟨⟨by decide, by decide, by intro w hw; cases hw; decide⟩, ⟨by decide, by decide, by intro w hw; cases hw⟩⟩,
+   by intro c hc; simp at hc; subst hc; decide⟩
+
+
+/-! ### all accepted spellings of numbers
+
+`render` prints canonical numerals only; the parser also accepts a leading `+` and leading zeros (and `-` for
+durations, `-0` included), but never a `-` for a count. -/
+theorem numeral_spellings (ds : List Char) (hne : ds ≠ []) (hd : ds.all isAsciiDigit = true) :
+    (decimalValue ds < 18446744073709551616 →
+      parseU64 ds = some (decimalValue ds) ∧ parseU64 ('+' :: ds) = some (decimalValue ds)) ∧
+    parseU64 ('-' :: ds) = none ∧
+    (decimalValue ds < 9223372036854775808 →
+      parseI64 ds = some (Int.ofNat (decimalValue ds)) ∧ parseI64 ('+' :: ds) = some (Int.ofNat (decimalValue ds))) ∧
+    (decimalValue ds ≤ 9223372036854775808 → parseI64 ('-' :: ds) = some (- Int.ofNat (decimalValue ds))) := by
+  have hdv : digitsValue? ds = some (decimalValue ds) := by
+    simp [digitsValue?, hne, hd]
+  cases ds with
+  | nil => exact absurd rfl hne
+  | cons c r =>
+    have hc : isAsciiDigit c = true := by simp at hd; exact hd.1
+    have hplus : c ≠ '+' := by intro e; subst e; simp [isAsciiDigit] at hc
+    have hminus : c ≠ '-' := by intro e; subst e; simp [isAsciiDigit] at hc
+    have hm : digitsValue? ('-' :: c :: r) = none := by
+      simp [digitsValue?, isAsciiDigit]
+    refine ⟨?_, ?_, ?_, ?_⟩
+    · intro h
+      simp [parseU64, hplus, hdv, h]
+    · simp [parseU64, hm]
+    · intro h
+      simp [parseI64, hplus, hminus, hdv, h]
+    · intro h
+      simp [parseI64, hdv, h]
+
+#print axioms numeral_spellings
+
+/-- one complete line, end to end -/
+example : parseLine "\t go   wtime 5 \r\n" = .ok (.go { wtime := some 5 }) := by
+  have hpad : PadOk "\t ".toList " \r\n".toList ["go".toList, "wtime".toList, "5".toList] :=
+    ⟨by decide, by decide, by decide, by decide,
+     by intro t c h1 h2; simp at h1; subst h1; simp at h2; subst h2; decide,
+     by intro t c h1 h2; simp at h1; subst h1; simp at h2; subst h2; decide⟩
+  rw [parseLine_pad _ [2, 0] hpad (by decide)]
+  have d5 : decimal 5 = ['5'] := by rw [decimal]; rfl
+  have i5 : intText 5 = ['5'] := by unfold intText; rw [if_neg (by decide)]; exact d5
+  have e : ["go".toList, "wtime".toList, "5".toList] = "go".toList :: renderGoItems [.wtime 5] := by
+    show _ = "go".toList :: ["wtime".toList, intText 5]
+    rw [i5]; rfl
+  rw [e, parse_render_go [.wtime 5] ⟨by decide, by decide⟩]
+  rfl
+
+
+/-!
+### Scope notes
+
+* Proved in full: `tokenize_pad`, `ucimove_roundtrip`, `parse_render_simple`, `parse_render_setoption(value)`,
+  `parse_render_register`, `parse_render_position`, `parse_render_go`, the headline `parse_render` / `parse_line`, and the
+  rejection lemmas `unknown_first_word`, `go_duplicate`, `bad_int`, `bad_move`(`_go`), `bad_fen`, `missing_param`,
+  `go_missing_value`, `wrong_keyword`.  Nothing is left as a `_partial`.
+* Not stated at line level (only at numeral level, `numeral_spellings`): `go` lines whose numbers are spelled
+  non-canonically (`+5`, `007`).  `go_unknown_param` covers a non-keyword only as the *first* parameter.
+* Characters other than U+0020 between tokens (tab, NBSP, …) are **not** separators in the Rust code; `pad` therefore
+  only inserts U+0020 between tokens, and `EndsClean` is a necessary side condition for free text at the end of a line.
+-/
 
 end Inkayaku.C15
